@@ -652,7 +652,7 @@ bn_digit_div__int(bn_digit_t dividend_lo, bn_digit_t dividend_hi, bn_digit_t div
 		    (reg_dividend_hi << (BN_DIGIT_BITS - num_bits)));
 		(*result_hi) = (reg_dividend_hi >> num_bits);
 		(*remainder_lo) = (reg_dividend_lo & ((((bn_digit_t)1) << num_bits) - 1));
-		(*remainder_hi) = (reg_dividend_hi & ((((bn_digit_t)1) << (BN_DIGIT_BITS - num_bits)) - 1));
+		(*remainder_hi) = 0; /* The remainder is less than the divisor. */
 		return (0);
 	}
 #endif
@@ -1158,6 +1158,8 @@ bn_digits_import_le_hex(bn_digit_t *a, size_t count,
 		byte = 0;
 		cnt = 0;
 	}
+	if (0 != cnt) /* Half of a byte left: odd number of hex digits. */
+		return (EINVAL);
 	memset(w_pos, 0x00, (size_t)(w_pos_max - w_pos));
 
 	return (0);
@@ -1254,6 +1256,11 @@ bn_digits_import_be_hex(bn_digit_t *a, size_t count,
 		(*w_pos ++) = byte;
 		byte = 0;
 		cnt = 0;
+	}
+	if (0 != cnt) { /* Odd number of hex digits: the most significant nibble. */
+		if (w_pos == w_pos_max)
+			return (EOVERFLOW);
+		(*w_pos ++) = (byte >> 4);
 	}
 	memset(w_pos, 0x00, (size_t)(w_pos_max - w_pos));
 
@@ -2040,12 +2047,10 @@ bn_l_shift(bn_p bn, size_t bits) {
 
 	if (NULL == bn || 0 == bn->digits)
 		return;
-#if 0
 	if ((bn->count * BN_DIGIT_BITS) <= bits) {
 		bn_assign_zero(bn);
 		return;
 	}
-#endif
 	digits = MIN(bn->count, (bn->digits + 1 + (bits / BN_DIGIT_BITS)));
 	bn_init_digits__int(bn, digits);
 	bn_digits_l_shift(bn->num, digits, bits);
@@ -2057,12 +2062,10 @@ bn_r_shift(bn_p bn, size_t bits) {
 
 	if (NULL == bn || 0 == bn->digits)
 		return;
-#if 0
 	if ((bn->digits * BN_DIGIT_BITS) <= bits) {
 		bn_assign_zero(bn);
 		return;
 	}
-#endif
 	bn_digits_r_shift(bn->num, bn->digits, bits);
 	bn_update_digits__int(bn, bn->digits);
 }
@@ -2080,10 +2083,8 @@ bn_and(bn_p bn, bn_p n) {
 	for (i = 0; i < digits; i ++) {
 		bn->num[i] &= n->num[i];
 	}
-	if (bn->count > digits) {
-		bn->num[digits] = 0;
-	}
-	bn_update_digits__int(bn, digits);
+	/* The result is never longer than the shorter operand. */
+	bn->digits = bn_digits_calc_digits(bn->num, digits);
 	return (0);
 }
 
@@ -2254,6 +2255,7 @@ static inline int
 bn_mult_digit(bn_p bn, bn_digit_t n) {
 	bn_t tmp;
 	size_t digits;
+	bn_digit_t crr = 0;
 
 	/* Speed optimizations. */
 	if (0 != bn_is_zero(bn))
@@ -2265,13 +2267,22 @@ bn_mult_digit(bn_p bn, bn_digit_t n) {
 		break;
 	case 1:
 		break;
-	case 2: // XXX shift check
-		BN_RET_ON_ERR(bn_add(bn, bn, NULL));
+	case 2:
+		BN_RET_ON_ERR(bn_assign_init(&tmp, bn));
+		BN_RET_ON_ERR(bn_add(&tmp, &tmp, &crr));
+		if (0 != crr)
+			return (EOVERFLOW);
+		BN_RET_ON_ERR(bn_assign(bn, &tmp));
 		break;
 	case 3:
 		BN_RET_ON_ERR(bn_assign_init(&tmp, bn));
-		BN_RET_ON_ERR(bn_add(&tmp, &tmp, NULL));
-		BN_RET_ON_ERR(bn_add(bn, &tmp, NULL));
+		BN_RET_ON_ERR(bn_add(&tmp, &tmp, &crr));
+		if (0 != crr)
+			return (EOVERFLOW);
+		BN_RET_ON_ERR(bn_add(&tmp, bn, &crr));
+		if (0 != crr)
+			return (EOVERFLOW);
+		BN_RET_ON_ERR(bn_assign(bn, &tmp));
 		break;
 	default:
 		digits = bn->digits;
@@ -2483,8 +2494,9 @@ bn_gcd(bn_p bn, bn_p a, bn_p b) {
 		BN_RET_ON_ERR(bn_assign(bn, a));
 		return (0);
 	case 1: /* a > b */
-		BN_RET_ON_ERR(bn_assign_init(ta, a));
+		/* The copy first: bn may be b. */
 		BN_RET_ON_ERR(bn_assign_init(tb, b));
+		BN_RET_ON_ERR(bn_assign_init(ta, a));
 		break;
 	}
 
@@ -2519,8 +2531,9 @@ bn_gcd_bin(bn_p bn, bn_p a, bn_p b) {
 		return (0);
 	}
 
-	BN_RET_ON_ERR(bn_assign_init(ta, a));
+	/* The copy first: bn may be b. */
 	BN_RET_ON_ERR(bn_assign_init(tb, b));
+	BN_RET_ON_ERR(bn_assign_init(ta, a));
 	/* Let shift = the greatest power of 2 dividing both a and b. */
 	shift_a = bn_ctz(ta);
 	shift_b = bn_ctz(tb);
@@ -2649,10 +2662,11 @@ bn_sqrt1(bn_p bn) {
 	BN_RET_ON_ERR(bn_init(&res, bits));
 	BN_RET_ON_ERR(bn_init(&bit, bits));
 	BN_RET_ON_ERR(bn_init(&tmp, bits));
-	BN_RET_ON_ERR(bn_assign_2exp(&bit, (bits - bn_clz(bn))));
-	while (bn_cmp(&bit, bn) > 0) {
-		bn_r_shift(&bit, 2);
-	}
+	if (0 != bn_is_zero(bn))
+		return (0);
+	/* The highest power of four <= bn: an even exponent. */
+	BN_RET_ON_ERR(bn_assign_2exp(&bit,
+	    ((bn_calc_bits(bn) - 1) & ~((size_t)1))));
 
 	while (0 == bn_is_zero(&bit)) {
 		BN_RET_ON_ERR(bn_assign(&tmp, &res));
@@ -2688,10 +2702,11 @@ bn_sqrt2(bn_p bn) {
 	BN_RET_ON_ERR(bn_init(&res, bits));
 	BN_RET_ON_ERR(bn_init(&bit, bits));
 	BN_RET_ON_ERR(bn_init(&tmp, bits));
-	BN_RET_ON_ERR(bn_assign_2exp(&bit, (bits - bn_clz(bn))));
-	while (bn_cmp(&bit, bn) > 0) {
-		bn_r_shift(&bit, 2);
-	}
+	if (0 != bn_is_zero(bn))
+		return (0);
+	/* The highest power of four <= bn: an even exponent. */
+	BN_RET_ON_ERR(bn_assign_2exp(&bit,
+	    ((bn_calc_bits(bn) - 1) & ~((size_t)1))));
 
 	while (0 == bn_is_zero(&bit)) {
 		BN_RET_ON_ERR(bn_assign(&tmp, &res));
@@ -2884,6 +2899,7 @@ bn_calc_naf(bn_p bn, size_t wnd_bits, size_t naf_arr_size, int8_t *naf_arr,
 	register bn_digit_t mask;
 	register int8_t itm;
 	register uint8_t sign_bit;
+	bn_digit_t crr = 0;
 
 	if (NULL == bn || 2 > wnd_bits || NULL == naf_arr)
 		return (EINVAL);
@@ -2922,7 +2938,9 @@ bn_calc_naf(bn_p bn, size_t wnd_bits, size_t naf_arr_size, int8_t *naf_arr,
 			}
 #endif
 			if (itm < 0) {
-				bn_add_digit(&tm, (bn_digit_t)-itm, NULL);
+				bn_add_digit(&tm, (bn_digit_t)-itm, &crr);
+				if (0 != crr) /* One more bit than the capacity. */
+					return (EOVERFLOW);
 			} else {
 				bn_sub_digit(&tm, (bn_digit_t)itm, NULL);
 			}
@@ -3063,12 +3081,15 @@ bn_mod(bn_p bn, bn_p m, bn_mod_rd_data_p mod_rd_data) {
 /* Computes: bn = (bn + n) mod m. */
 static inline int
 bn_mod_add(bn_p bn, bn_p n, bn_p m, bn_mod_rd_data_p mod_rd_data __unused) {
+	bn_digit_t crr = 0;
 
 	BN_POINTER_CHK_EINVAL(bn);
 	BN_POINTER_CHK_EINVAL(n);
 	BN_POINTER_CHK_EINVAL(m);
-	BN_RET_ON_ERR(bn_add(bn, n, NULL));
-	if (bn_cmp(bn, m) >= 0) { /* bn >= m */
+	BN_RET_ON_ERR(bn_add(bn, n, &crr));
+	/* A carry out of the capacity: the sum is above m and the
+	 * subtraction wraps back to the exact result. */
+	if (0 != crr || bn_cmp(bn, m) >= 0) { /* bn >= m */
 		BN_RET_ON_ERR(bn_sub(bn, m, NULL));
 	}
 	//BN_RET_ON_ERR(bn_mod(bn, m, mod_rd_data));
@@ -3130,6 +3151,7 @@ bn_mod_exp_digit(bn_p bn, size_t exp, bn_p m, bn_mod_rd_data_p mod_rd_data) {
 		BN_RET_ON_ERR(bn_assign_digit(bn, 1));
 		return (0);
 	case 1: /* bn^1 = bn */
+		BN_RET_ON_ERR(bn_mod(bn, m, mod_rd_data));
 		return (0);
 	case 2: /* bn^2 = bn_square() = bn*bn */
 		BN_RET_ON_ERR(bn_mod_mult(bn, bn, m, mod_rd_data));
@@ -3182,6 +3204,7 @@ bn_mod_exp(bn_p bn, bn_p exp, bn_p m, bn_mod_rd_data_p mod_rd_data) {
 			BN_RET_ON_ERR(bn_assign_digit(bn, 1));
 			return (0);
 		case 1: /* bn^1 = bn */
+			BN_RET_ON_ERR(bn_mod(bn, m, mod_rd_data));
 			return (0);
 		case 2: /* bn^2 = bn_square() = bn*bn */
 			BN_RET_ON_ERR(bn_mod_mult(bn, bn, m, mod_rd_data));
@@ -3349,6 +3372,8 @@ bn_mod_inv_bin(bn_p bn, bn_p m, bn_mod_rd_data_p mod_rd_data) {
 
 	if (0 != bn_is_zero(bn) || 0 != bn_is_zero(m) || bn_cmp(bn, m) >= 0)
 		return (EINVAL);
+	if (0 == bn_is_odd(m)) /* The halving steps need an odd modulus. */
+		return (EINVAL);
 	bits = ((4 + MAX(bn->digits, m->digits)) * BN_DIGIT_BITS);
 	BN_RET_ON_ERR(bn_init(&u, bits));
 	BN_RET_ON_ERR(bn_init(&v, bits));
@@ -3382,6 +3407,9 @@ bn_mod_inv_bin(bn_p bn, bn_p m, bn_mod_rd_data_p mod_rd_data) {
 			BN_RET_ON_ERR(bn_mod_sub(&v, &u, m, mod_rd_data));
 			BN_RET_ON_ERR(bn_mod_sub(&x2, &x1, m, mod_rd_data));
 		}
+		/* gcd(bn, m) != 1: no inverse. */
+		if (0 != bn_is_zero(&u) || 0 != bn_is_zero(&v))
+			return (EINVAL);
 	}
 
 	if (0 != bn_is_one(&u)) {
@@ -3590,14 +3618,14 @@ bn_mod_sqrt(bn_p bn, bn_p m, bn_mod_rd_data_p mod_rd_data) {
 		BN_RET_ON_ERR(bn_init(&tm, bits));
 		BN_RET_ON_ERR(bn_init(&b, bits));
 		BN_RET_ON_ERR(bn_init(&t, bits));
-		/* Select b random quadratic nonresidue. */
-		/* Initialize random algorithm. */
-		BN_RET_ON_ERR(bn_assign(&b, bn));
-		BN_RET_ON_ERR(bn_assign(&tm, m));
-		bits = bn_calc_bits(m); /* Trials count: from modulus, not from (possible small) value. */
+		/* Select b: the least quadratic nonresidue, trying 2, 3, 4, ...
+		 * It is below 2 * ln(m)^2 (Bach, under ERH), the trials count
+		 * is from modulus, not from (possible small) value. */
+		BN_RET_ON_ERR(bn_assign_digit(&b, 1));
+		bits = bn_calc_bits(m);
+		bits = (2 + (bits * bits));
 		do {
-			bn_r_shift(&tm, 1);
-			BN_RET_ON_ERR(bn_xor(&b, &tm));
+			bn_add_digit(&b, 1, NULL);
 		} while (-1 != bn_mod_legendre(&b, m, mod_rd_data) && 0 != --bits);
 		if (0 == bits)
 			return (-1);
